@@ -311,6 +311,9 @@ func findLoops(fn *ssa.Function) []*loopInfo {
 		li.minPos = token.Pos(1 << 40)
 		for b := range li.body {
 			for _, in := range b.Instrs {
+				if _, isPhi := in.(*ssa.Phi); isPhi {
+					continue // a phi carries the position of the variable's declaration
+				}
 				if p := in.Pos(); p.IsValid() && p < li.minPos {
 					li.minPos = p
 				}
